@@ -92,8 +92,7 @@ theorem afterMatch_colon (p qt c : Bytes) (hq : qt = [] ∨ qt = [63]) (hn : Boo
     have hk' := hks k' (by simp)
     have hpos := keyText_pos hk'
     cases hopt : k.optional <;> cases hopt' : k'.optional <;>
-      simp [closeB, renderRest, item, hopt, hopt', rd, brOf, sepLen, sepBytes, hcl, hcl'] at hpl ⊢ <;>
-      omega
+      simp [closeB, renderRest, item, hopt, hopt', rd, brOf, sepLen, sepBytes, hcl, hcl'] at hpl ⊢
 
 theorem afterMatch_q (p c : Bytes) (hn : Bool) (d : Int) (rec : MState → Bool × MState)
     (pp : Nat) (pl : Int) (cp cl : Nat) (br : Int) (nums : List Int) (idx : Nat) (oob : Bool)
